@@ -91,7 +91,15 @@ def shrink(spec, binp, case, seed, kind, budget=60):
         except Exception:
             return False
         o = Outcome()
-        return any(k == kind for (k, _, _, _) in eval_case(spec, c, tr, o, record=False))
+        pr = eval_case(spec, c, tr, o, record=False)
+        if hasattr(spec, "derive"):
+            for b in spec.backends:
+                for (dc, ctx) in spec.derive(c, tr[b], b):
+                    dt = run_cases(binp, [dc], b, seed + 7, shards=1).get(dc.name, [])
+                    pr += [("oracle", m, b, None) for m in spec.compare_derived(c, tr[b], ctx, dt, b)]
+        if hasattr(spec, "cross"):
+            pr += [("oracle", m, "both", None) for m in spec.cross(c, tr)]
+        return any(k == kind for (k, _, _, _) in pr)
     ops = list(case.ops)
     n = 2
     runs = 0
@@ -151,6 +159,20 @@ def run_l1_property(spec, tier, seed, replay=None, proof=None):
             tr = traces[spec.backends[-1]]
             out.samples.append({"case": c.name, "backend": spec.backends[-1],
                                 "ops_and_responses": [f"{o}  =>  {ri}" for o, ri, _ in tr[:40]]})
+    if hasattr(spec, "derive"):
+        # second run: derived cases (e.g. per-client projections), compared with the first run
+        for b in spec.backends:
+            derived = []
+            for c in cases:
+                for (dc, ctx) in spec.derive(c, results[b].get(c.name, []), b):
+                    derived.append((c, dc, ctx))
+            dres = run_cases(binp, [dc for _, dc, _ in derived], b, seed + 7)
+            for (c, dc, ctx) in derived:
+                msgs = spec.compare_derived(c, results[b].get(c.name, []), ctx, dres.get(dc.name, []), b)
+                out.evaluations += 1
+                if msgs:
+                    problems.append((c, [("oracle", m, b, None) for m in msgs],
+                                     {bb: results[bb].get(c.name, []) for bb in spec.backends}))
     for c in cases:
         for o in c.ops:
             k = o.split()[0]
